@@ -88,6 +88,14 @@ Section Compaction.
     else if c_maxamp cfg <? pct (eligible ll) (base_size ll) then (Some (major cfg ll), mcl)
     else minor cfg ll mcl.
 
+  (* one step as the database performs it: Compact on [ll], level-0 tables [extra] added by flushes meanwhile, then
+     the change set applied - unless Compact FAILED (a storage read error while scanning an input table: majorCompaction /
+     minorCompaction return the error and no change set).  A failed step installs nothing; the cursor has already moved. *)
+  Definition compact_step (failed : bool) (cfg : ccfg) (mcl : nat) (ll : levels) (extra : list table) : levels * nat :=
+    let '(ocs, m) := compact cfg mcl ll in
+    let ll1 := add_l0 extra ll in
+    (match ocs with Some cs => if failed then ll1 else apply_cs cs ll1 | None => ll1 end, m).
+
   (* the loop of the compaction task in db.go ("run compact steps until there is no changeset") when no flush
      interferes; None = fuel exhausted *)
   Fixpoint compact_loop (fuel : nat) (cfg : ccfg) (mcl : nat) (ll : levels) : option (levels * nat) :=
